@@ -51,7 +51,7 @@ RULES = [
  ("aggregate/keeper/proposals.go", "Keeper.DeployERC20Contract", "slice", "", G, "data = make([]byte, len(Bin)+len(ctorArgs))"),
  ("aggregate/keeper/proposals.go", "Keeper.UpdateTokenPairERC20", "index", "pair.Denoms[0]", L, "TM.NoPanic.updatePair_no_panic with the store invariant AValid (agenesis_no_panic, registerCoin_valid, addCoin_valid, registerERC20_valid, toggleRelay_valid, updatePair_valid)"),
  ("aggregate/keeper/token_pairs.go", "", "must-call", "", S, CODEC),
- ("aggregate/proposal_handler.go", "handleEnableTimeBasedSupplyLimitProposal", "unchecked-ok", "", L, "TM.NoPanic.enableLimit_no_panic (ValidateBasic checks `valid` of all four SetString calls)"),
+ ("aggregate/proposal_handler.go", "handleEnableTimeBasedSupplyLimitProposal", "unchecked-ok", "## same parser checked in: EnableTimeBasedSupplyLimitProposal.ValidateBasic", L, "TM.NoPanic.supply_limit_parse_agree (∀ strings: ValidateBasic accepts ⇒ the handler's re-parse with the same parser succeeds) ⇒ enableLimit_no_panic; guard fact: the identical call new(big.Int).SetString(_.Field, 10) is flag-checked in ValidateBasic"),
  # (ccb0d33: GenesisState.Validate checks len(b.Denoms) == 0 first and no longer indexes Denoms[0]: no site left there)
  ("aggregate/types/proposal.go", "validateIBC", "index", "denomSplit[0]", S, "strings.SplitN(s, sep, 2) returns at least one element"),
  ("aggregate/types/proposal.go", "ValidateAggregateDenom", "index", "", G, "len(denomSplit) != 2 is tested first in the same condition / just above"),
